@@ -106,7 +106,7 @@ class Run:
             dep = next(x for x in self.workers if x.name == w.start_after)
             return dep.finished
         if op == 'acquire':
-            return self.locks.get(detail) in (None, w.name)
+            return lock_is_free(detail)
         return True
 
     def execute(self):
@@ -165,51 +165,90 @@ class Run:
 
 # ------------------------------------------------------------------------------------------------ interposition
 class SchedLock:
-    """stands in for filelock.FileLock inside taskchain.cache; backed by the real lock (timeout=0) once granted"""
+    """stands in for filelock.FileLock inside taskchain.cache (same constructor, acquire/release, context manager, other
+    attributes delegated). Whether an acquire is ENABLED is decided by the real lock (non-blocking probe on the lock file
+    as it is on disk now - so unlinking / re-creating the lock file has its real effect); once the scheduler grants it the
+    real lock is taken with timeout=0 and must succeed."""
 
-    def __init__(self, path, *a, **k):
-        self.path = str(path)
+    def __init__(self, lock_file, *a, **k):
         import filelock
 
+        self.path = str(lock_file)
+        self._args = (a, k)
         self._real = filelock.FileLock(self.path, *a, **k)
+        self._depth = 0
 
-    def __enter__(self):
+    def acquire(self, *a, **k):
         run = _CURRENT[0]
         w = run.me() if run else None
         if w is None:
-            self._real.acquire()
-            return self
-        run.point('acquire', self.path)
-        if run.locks.get(self.path) not in (None, w.name):
-            raise HarnessError('scheduler granted a held lock')
-        run.locks[self.path] = w.name
-        try:
-            self._real.acquire(timeout=0)
-        except Exception as e:  # noqa
-            raise HarnessError(f'model says lock {self.path} is free but the real FileLock is not: {e}')
+            self._real.acquire(*a, **k)
+            return _Proxy(self)
+        if self._depth == 0:
+            run.point('acquire', self.path)
+            try:
+                self._real.acquire(timeout=0)
+            except Exception as e:  # noqa
+                raise HarnessError(f'scheduler granted lock {self.path} but the real FileLock refused it: {e}')
+            run.locks[self.path] = w.name
+        self._depth += 1
+        return _Proxy(self)
+
+    def release(self, force=False):
+        run = _CURRENT[0]
+        w = run.me() if run else None
+        if w is None:
+            self._real.release(force)
+            return
+        if self._depth == 0:
+            return
+        self._depth = 0 if force else self._depth - 1
+        if self._depth == 0:
+            if not run.aborting:
+                try:
+                    run.point('release', self.path)
+                except _Abort:
+                    self._real.release(force=True)
+                    run.locks.pop(self.path, None)
+                    raise
+            self._real.release(force=True)
+            run.locks.pop(self.path, None)
+
+    def __enter__(self):
+        self.acquire()
         return self
 
     def __exit__(self, *exc):
-        run = _CURRENT[0]
-        w = run.me() if run else None
-        if w is None:
-            self._real.release()
-            return False
-        if not run.aborting:
-            try:
-                run.point('release', self.path)
-            except _Abort:
-                self._real.release()
-                run.locks.pop(self.path, None)
-                raise
-        self._real.release()
-        run.locks.pop(self.path, None)
+        self.release()
         return False
 
-    acquire = __enter__
+    def __getattr__(self, name):
+        return getattr(self._real, name)
 
-    def release(self):
-        self.__exit__(None, None, None)
+
+class _Proxy:
+    def __init__(self, lock):
+        self.lock = lock
+
+    def __enter__(self):
+        return self.lock
+
+    def __exit__(self, *exc):
+        self.lock.release()
+        return False
+
+
+def lock_is_free(path):
+    """non-blocking probe of the REAL lock file (from the scheduler thread, while every worker is parked)"""
+    import filelock
+
+    probe = filelock.FileLock(path)
+    try:
+        probe.acquire(timeout=0)
+    except filelock.Timeout:
+        return False
+    probe.release(force=True)
+    return True
 
 
 class SchedFile:
@@ -298,9 +337,22 @@ def _unlink(self, *a, **k):
     run = _CURRENT[0]
     if run is not None and run.me() is not None:
         p = _in_root(run, self)
-        if p is not None and not p.endswith('.lock'):
-            run.point('unlink', os.path.relpath(p, run.root))
+        if p is not None:  # lock files included: removing one changes who can hold "the" lock
+            run.point('unlink_lock' if p.endswith('.lock') else 'unlink', os.path.relpath(p, run.root))
     return _real_unlink(self, *a, **k)
+
+
+_real_os_unlink = os.unlink
+_real_os_remove = os.remove
+
+
+def _os_unlink(path, *a, **k):
+    run = _CURRENT[0]
+    if run is not None and run.me() is not None and not a and not k:
+        p = _in_root(run, path)
+        if p is not None:
+            run.point('unlink_lock' if p.endswith('.lock') else 'unlink', os.path.relpath(p, run.root))
+    return _real_os_unlink(path, *a, **k)
 
 
 class armed:
@@ -310,6 +362,8 @@ class armed:
         import taskchain.cache as cache
 
         self._saved = (cache.FileLock, io.open, builtins.open, pathlib.Path.exists, pathlib.Path.unlink)
+        self._saved_os = (os.unlink, os.remove)
+        os.unlink = os.remove = _os_unlink
         cache.FileLock = SchedLock
         io.open = _open
         builtins.open = _open
@@ -321,6 +375,7 @@ class armed:
         import taskchain.cache as cache
 
         cache.FileLock, io.open, builtins.open, pathlib.Path.exists, pathlib.Path.unlink = self._saved
+        os.unlink, os.remove = self._saved_os
         return False
 
 
